@@ -34,6 +34,7 @@ var textGrid = []string{
 	" abc", "é", "É", "éa", "ea", "z", "Z", "[", "@", "`", "{", "a\x00b", "a\x00", "\x00",
 	"12", "12abc", "1e3", " 12", "-7", "3.5", "010", "-0755", "007", "00", "0x10", "12 ", "+5", "9223372036854775808", "1.0", ".5", "5.",
 	"2006-01-02 15:04:05", "2006-01-02 15:04:05.123", "2006-01-02", "not a time",
+	"2020-01-02 03:04:05.6", "2020-01-02 03:04:05.678901", "2020-01-02 03:04:05.123456789", "2020-01-02T03:04:05Z", "2020-01-02 03:04", "2020-13-02 03:04:05", "2020-01-02 03:04:05 ",
 	"naïve", "日本", "日本語", "\xff\xfe", "a\xffb", "true", "inf", "nan", "1_000",
 	"word", "Word", "WORD", "word ", "wor", "words",
 }
